@@ -1,6 +1,6 @@
 (* Model/Exec.v -- the codec models and specs instantiated with the Gallina AES-128 / AES-CMAC,
    for execution (extraction) -- this is the "independent implementation of LoRaWAN cryptography". *)
-From LoraV Require Import Base.Bytes Crypto.AES Crypto.CMAC Model.Frame Spec.L2Frame Model.Region Model.Mac Model.AsyncDev.
+From LoraV Require Import Base.Bytes Crypto.AES Crypto.CMAC Model.Frame Spec.L2Frame Model.Region Model.Mac Model.AsyncDev Model.NbDev.
 
 Definition x_build_data := build_data aes_enc aes_mac.
 Definition x_build_join_request := build_join_request aes_mac.
@@ -34,3 +34,4 @@ Definition x_next_fcnt_down := next_fcnt_down.
 Definition x_adev_send := adev_send aes_enc aes_mac.
 Definition x_adev_join := adev_join aes_enc aes_mac.
 Definition x_adev_listen := adev_listen aes_enc aes_mac.
+Definition x_nb_handle_event := handle_event aes_enc aes_mac.
